@@ -321,6 +321,10 @@ let () =
          (match fixed_new (nat_of_int 4) data with
           | None -> "ERR"
           | Some v -> Printf.sprintf "OK %d %d %s %s" (int_of_n (nth v 0) lsr 4) (int_of_n (nth v 0) land 15) (hex_of_bytes [nth v 1; nth v 2]) (dec_of_n (nth v 3)))
+       | "chmask2" | "chmask9" ->
+         (match chmask_new (nat_of_int (if kind = "chmask2" then 2 else 9)) data with
+          | None -> "ERR"
+          | Some v -> "OK " ^ hex_of_bytes v)
        | "devstatus" ->
          (match fixed_new (nat_of_int 2) data with
           | None -> "ERR"
